@@ -328,6 +328,83 @@ def zero_parameter_copy(scale_in):
     return SCALE2 + scale_in
 
 
+def inner_kw(a, b):
+    return a - 2.0 * b
+
+
+def both_default(a=1.0, b=2.0):
+    return a - 2.0 * b
+
+
+def all_keywords(x, k):
+    return inner_kw(a=x, b=k)
+
+
+def all_keywords_swapped(x, k):
+    return inner_kw(b=k, a=x)
+
+
+def keywords_own_names(a, b):
+    return inner_kw(b=a, a=b)
+
+
+def keyword_default(x, k):
+    return scaled_by_default(s=x) + scaled_by_default(k=x, s=k)
+
+
+def keyword_nested(x, k):
+    return inner_kw(a=inner_kw(b=x, a=k), b=helper(b=k, a=x))
+
+
+def keyword_other_module(x, k):
+    return c06corpus2.gain(v=x) - k
+
+
+def keyword_in_condition(x, k):
+    if inner_kw(b=x, a=k) > 0:
+        return x
+    return k
+
+
+def keyword_local(x, k):
+    y = inner_kw(b=k, a=x)
+    return y * both_default(b=y)
+
+
+def all_defaults_call(x):
+    return x + both_default()
+
+
+def one_default_call(x):
+    return both_default(x) + both_default(b=x)
+
+
+def keyword_unknown(x, k):
+    return inner_kw(a=x, c=k)
+
+
+def chain_lt_eq(x, lo, hi):
+    if lo < x == hi:
+        return 1.0
+    return 0.0
+
+
+def chain_le_ne(x, lo, hi):
+    return x if lo <= x != hi else lo - hi
+
+
+def chain_eq_lt(x, lo, hi):
+    if lo == x < hi:
+        return x * 2.0
+    return hi
+
+
+def chain_gt_eq_ne(a, b, c):
+    if a > b == c != a:
+        return 1.0
+    return 2.0
+
+
 def early_none(x):
     if x > 1:
         return x
@@ -623,6 +700,7 @@ def run_oracle(ctx: Ctx, rep: Report) -> None:
 # every row of mxlpy's KNOWN_FNS table, with symbolic and with constant arguments
 # ---------------------------------------------------------------------------------------------------
 KGRID = [-2.0, -0.5, 0.0, 0.5, 1.0, 2.0, 3.0]
+KMIXED = [0.0, 1.0, 2.5, -1.5]
 KCONST = {1: [(0.5,), (-1.5,), (2.5,)], 2: [(2.5, 1.5), (-1.5, 2.5), (2.0, 2.0), (7.5, -2.0)]}
 
 
@@ -648,7 +726,8 @@ def known_fns_check(ctx: Ctx, rep: Report) -> dict:
 
     Transcendental results cannot be decided by TLC, so CPython's value is the expected one (supplementary path).
     With symbolic arguments the clean tree refuses every row (acceptable); with constant arguments the row is
-    applied at translation time.  A refusal is fine, a wrong value is a violation.
+    applied at translation time; binary rows are also called with one constant and one non-constant argument in
+    both orders (sympy.maximum(0.0, s) is the calculus function and returned the constant).  A refusal is fine, a wrong value is a violation.
     """
     from mxlpy.meta import source_tools
 
@@ -673,6 +752,13 @@ def known_fns_check(ctx: Ctx, rep: Report) -> dict:
             for ci, c in enumerate(KCONST[ar]):
                 lines += [f"def {fname}_c{ci}(a):", f"    return a + {src}({', '.join(repr(x) for x in c)})", "", ""]
                 names.append(f"{fname}_c{ci}")
+            if ar == 2:
+                # the non-constant argument in EVERY position, the other one a constant (both orders), as a factor
+                for ci, c in enumerate(KMIXED):
+                    lines += [f"def {fname}_cs{ci}(a, b):", f"    return b * {src}({c!r}, a)", "", "",
+                              f"def {fname}_sc{ci}(a, b):", f"    return b * {src}(a, {c!r})", "", "",
+                              f"def {fname}_lc{ci}(a, b):", f"    y = a - 0.5", f"    return {src}({c!r}, y) + b", "", ""]
+                    names += [f"{fname}_cs{ci}", f"{fname}_sc{ci}", f"{fname}_lc{ci}"]
     d = ctx.work / "oracle_mods"
     render.write_module(d, "c06known", "\n".join(lines))
     mod = render.load_module(d, "c06known")
